@@ -18,6 +18,10 @@ from contracts.cmath import div_callee
 SERVES = ("C04", "C36")
 
 TYPES_QUICK = [("int", "int"), ("long", "long"), ("unsigned int", "uint")]
+# operands narrower than int: C computes in int (integer promotion); the checked arithmetic must still refuse products that
+# leave the int range (unsigned short * unsigned short reaches 2**32)
+NARROW_QUICK = [("unsigned short", "ushort"), ("short", "short")]
+NARROW_ALL = NARROW_QUICK + [("signed char", "schar"), ("unsigned char", "uchar")]
 TYPES_ALL = TYPES_QUICK + [("long long", "longlong"), ("unsigned long", "ulong"), ("Py_ssize_t", "ssize"), ("size_t", "size")]
 
 
@@ -25,8 +29,12 @@ def _is_unsigned(t):
     return t.startswith(("unsigned", "size_t"))
 
 
-def catalogue(types, fold):
+def catalogue(types, fold, narrow=()):
     out = ["# cython: language_level=3", "# cython: overflowcheck=True", "# cython: overflowcheck.fold=%s" % fold, "cimport cython", ""]
+    for t, tag in narrow:
+        for name, expr, params in (("add", "a + b", "ab"), ("sub", "a - b", "ab"), ("mul", "a * b", "ab"), ("nest2", "(a + b) * (b - c)", "abc"),
+                                   ("mul3v", "a * b * c", "abc")):
+            out.extend(["cdef int %s_%s(%s) except? -1:" % (name, tag, ", ".join("%s %s" % (t, p) for p in params)), "    return %s" % expr, ""])
     for t, tag in types:
         ev = "7" if _is_unsigned(t) else "-1"
 
@@ -93,7 +101,17 @@ def units(tier):
     # value clauses of the statement -> C04; UB-freedom and helper preconditions of the emitted code -> C36
     props = {"C04": ["post", "subset"], "C36": ["ub", "pre", "subset"]}
     for fold in (("True", "False") if tier != "quick" else ("True",)):
-        pyx = catalogue(types, fold)
+        narrow = NARROW_QUICK if tier == "quick" else NARROW_ALL
+        pyx = catalogue(types, fold, narrow)
+        for t, tag in narrow:
+            sub = {"mechanism": "ExprNodes.NumBinopNode overflow_check code generation (promoted narrow operands), overflowcheck.fold=%s" % fold, "ctype": t}
+            for name, steps, final in (("add", lambda e: [e.a + e.b], lambda e: e.a + e.b), ("sub", lambda e: [e.a - e.b], lambda e: e.a - e.b),
+                                       ("mul", lambda e: [e.a * e.b], lambda e: e.a * e.b),
+                                       ("nest2", lambda e: [e.a + e.b, e.b - e.c, (e.a + e.b) * (e.b - e.c)], lambda e: (e.a + e.b) * (e.b - e.c)),
+                                       ("mul3v", lambda e: [e.a * e.b, e.a * e.b * e.c], lambda e: e.a * e.b * e.c)):
+                ens, meas = _ens(steps, final)
+                us.append(L3Unit("L3ovf.%s[%s,fold=%s]" % (name, t, fold), props, pyx, "%s_%s" % (name, tag), ensures=ens,
+                                 measured=meas, callees=callees, subject=dict(sub)))
         for t, tag in types:
             sub = {"mechanism": "ExprNodes.NumBinopNode overflow_check code generation, overflowcheck.fold=%s" % fold, "ctype": t}
 
